@@ -64,7 +64,7 @@ def check(ctx):
                 reads.append(st)
             if isinstance(f, ast.Attribute) and f.attr == "update" and isinstance(
                     f.value, ast.Name) and f.value.id == "self":
-                if _covers_inputs(call, None):
+                if _covers_inputs(call, None, sim.node):
                     refreshes.append(st)
             elif isinstance(f, ast.Attribute) and f.attr == "update" and not call.args \
                     and not call.keywords:
@@ -181,6 +181,19 @@ def check(ctx):
         dists_t, seeds_t = it[2]
         ok_zip = (is_call(seeds_t, "jax.random.split") and seeds_t[2][0] == n("seed")
                   and seeds_t[2][1] == ("call", ("n", "len"), (dists_t,), ()))
+    # the same paired walk written with a cursor: `for i, dist in enumerate(dists)` and
+    # `seeds[i]` where seeds = split(seed, len(dists))
+    cursor = None
+    if it is not None and is_call(it, "enumerate") and len(it[2]) == 1 and lp is not None:
+        idx_v = ("proj", ("iter", it), 0)
+        picks = {x for t_, _, _ in lp["calls"] for x in subterms(t_)
+                 if x[0] == "s" and x[2] == idx_v}
+        if len(picks) == 1:
+            seeds_t = next(iter(picks))[1]
+            dists_t = it[2][0]
+            cursor = ("s", seeds_t, idx_v)
+            ok_zip = (is_call(seeds_t, "jax.random.split") and seeds_t[2][0] == n("seed")
+                      and seeds_t[2][1] == ("call", ("n", "len"), (dists_t,), ()))
     ctx.ob("C17.R2", sim, "the loop zips the selected distributions with the pieces of one "
                           "split(seed, len(dists))", ok_zip, detail=short(it or ()),
            stmt="loop iterable " + pretty(it or ())[:160])
@@ -225,6 +238,8 @@ def check(ctx):
     if lp is not None:
         dist_v = ("proj", ("iter", it), 0)
         seed_v = ("proj", ("iter", it), 1)
+        if cursor is not None:
+            dist_v, seed_v = ("proj", ("iter", it), 1), cursor
         samples = [t for t, _, _ in lp["calls"] if t[1][0] == "a" and t[1][2] == "sample"]
         ok_s = False
         if len(samples) == 1:
@@ -272,6 +287,10 @@ def check(ctx):
                 pol = [p for a_, p in cond if a_ == isvv]
                 by[loc[1]] = pol[0] if pol else None
             ok_a = (by.get(("s", ("a", at, "inputs"), c(0))) is True and by.get(at) is False)
+        elif len(stores) == 1 and stores[0][1] == value_t:
+            # one store through a conditionally chosen target:
+            # (at.inputs[0] if isinstance(at, VarValue) else at).value = draw
+            ok_a = stores[0][0][1] == phi_(isvv, ("s", ("a", at, "inputs"), c(0)), at)
         ctx.ob("C17.R2", sim, "the draw is assigned to the variable's value node (input of "
                               "the VarValue proxy) or to `at` itself", ok_a,
                detail=str([(short(l, 60), short(v, 30)) for l, v, _ in stores]),
@@ -342,7 +361,7 @@ def check(ctx):
     ctx.rule("R3", "shared mechanisms, run as obligations of this property: the distribution a draw comes from is built from the node's current inputs, nothing kept from an earlier update (C01.R1); the refresh before each draw is a targeted update that really runs (C01.R6); the value setter each draw is assigned through flags every dependant and, with auto-update on, runs the full sweep in topological order (C01.R4); a transformed variable is the bijector image of the new variable, so it is simulated through it (C14.R1).")
 
 
-def _covers_inputs(call: ast.Call, tvars=None) -> bool:
+def _covers_inputs(call: ast.Call, tvars=None, scope=None) -> bool:
     """self.update() | self.update(dist.name) | self.update(*(n.name for n in
     dist.all_input_nodes()))"""
     if not call.args and not call.keywords:
@@ -351,6 +370,16 @@ def _covers_inputs(call: ast.Call, tvars=None) -> bool:
         return False
     for a in call.args:
         e = a.value if isinstance(a, ast.Starred) else a
+        if isinstance(e, ast.Name) and scope is not None:
+            # a temporary that is assigned exactly once stands for its value
+            defs = [st.value for st in ast.walk(scope)
+                    if isinstance(st, (ast.Assign, ast.AnnAssign)) and st.value is not None
+                    for t in (st.targets if isinstance(st, ast.Assign) else [st.target])
+                    if isinstance(t, ast.Name) and t.id == e.id]
+            stores = [x for x in ast.walk(scope) if isinstance(x, ast.Name)
+                      and x.id == e.id and isinstance(x.ctx, ast.Store)]
+            if len(defs) == 1 and len(stores) == 1:
+                e = defs[0]
         txt = ast.unparse(e)
         if isinstance(a, ast.Starred):
             names = [x for x in ast.walk(e) if isinstance(x, ast.Attribute)
